@@ -158,7 +158,9 @@ pub fn bnd_c08() {
 // ------------------------------------------------------------------------------------------------------------------------------
 // C13: output does not depend on the source formatting of collapsible white space.
 // `\u{2423}` marks a run of collapsible white space in an inline context, `\u{b6}` one between block elements.
-const C13_DOCS: [&str; 16] = [
+const C13_DOCS: [&str; 18] = [
+    "<p>see<a href=\"u\">\u{2423}the\u{2423}site\u{2423}</a>now\u{2423}and <a href=\"v\">x\u{2423}</a>\u{2423}then</p>",
+    "<p><em>\u{2423}lead\u{2423}in</em>\u{2423}and\u{2423}<strong>out\u{2423}</strong>end</p>",
     "<ol>\u{b6}<li>a1</li>\u{b6}<li>a2</li>\u{b6}<li>a3</li>\u{b6}<li>a4</li>\u{b6}<li>a5\u{2423}x</li>\u{b6}</ol>",
     "<ul>\u{b6}<li>u1</li>\u{b6}<li>u2<ol>\u{b6}<li>n1</li>\u{b6}<li>n2</li>\u{b6}<li>n3</li>\u{b6}<li>n4</li>\u{b6}</ol></li>\u{b6}</ul>",
     "<dl>\u{b6}<dt>t1</dt>\u{b6}<dd>d1\u{2423}d2</dd>\u{b6}<dt>t2</dt>\u{b6}<dd>d3</dd>\u{b6}</dl>",
@@ -195,7 +197,7 @@ fn subst(doc: &str, which: Option<usize>, inline_alt: &str, block_alt: &str) -> 
 
 pub fn bnd_c13() {
     let widths: Vec<usize> = if thorough() { (1..=100).collect() } else { (1..=30).chain([40, 60, 80, 100]).collect() };
-    let mut rep = Report::new("bnd_c13", &format!("16 table-free, pre-free documents; every word wrapped in a span; each collapsible white-space run replaced (one at a time and all at once) by 9 inline / 6 block-level \
+    let mut rep = Report::new("bnd_c13", &format!("18 table-free, pre-free documents; every word wrapped in a span; each collapsible white-space run replaced (one at a time and all at once) by 9 inline / 6 block-level \
         alternatives (newlines, tabs, runs, adjacent comments, a span around the white space, an empty span); {} widths; plain decorator; an error on one side only is not compared below 8 columns (finding D21)", widths.len()));
     for doc in C13_DOCS {
         let nmark = doc.chars().filter(|&c| c == '\u{2423}' || c == '\u{b6}').count();
@@ -313,7 +315,7 @@ pub fn bnd_c18() {
                 Err(pc) => {
                     let h = hs.contains(&k);
                     hidden.push_str(pc.open);
-                    if h { hidden.push_str(if inline_style { " style=\"display:none\"" } else { " class=\"h\"" }); }
+                    if h { hidden.push_str(if inline_style { [" style=\"display:none\"", " style=\"display:none;\"", " style=\"color:#000000; display:none;\"", " style=\"height:0;overflow:hidden;\""][k % 4] } else { " class=\"h\"" }); }
                     hidden.push_str(pc.body); hidden.push_str(pc.close);
                     if !h { deleted.push_str(pc.open); deleted.push_str(pc.body); deleted.push_str(pc.close); }
                     k += 1;
@@ -349,7 +351,7 @@ pub fn bnd_c18() {
             let input = format!("width=40 use_doc_css=false html={}", hidden);
             rep.case(&input);
             let h3 = hidden.clone();
-            let plain_doc = hidden.replace(" style=\"display:none\"", "");
+            let plain_doc = hidden.replace(" style=\"display:none\"", "").replace(" style=\"display:none;\"", "").replace(" style=\"color:#000000; display:none;\"", "").replace(" style=\"height:0;overflow:hidden;\"", "");
             let r = panic::catch_unwind(move || (config::plain().string_from_read(h3.as_bytes(), 40).ok(), config::plain().string_from_read(plain_doc.as_bytes(), 40).ok()));
             if let Ok((a, b)) = r { if a != b { rep.found(&input, "a style attribute changed the output although document CSS is not enabled"); } }
         }
@@ -613,7 +615,7 @@ fn columns(l: &str) -> Vec<char> {
 pub fn bnd_tables() {
     let (ntab, maxw) = if thorough() { (2500u32, 50usize) } else { (500u32, 30usize) };
     let mut rep = Report::new("bnd_tables", &format!("{} seeded regular tables (1..3 rows plus filler rows, 1..3 columns, colspan 2 tiling the grid, cells empty/short/two words/long/wide characters/two lines/many words, \
-        one level of nested tables, rows optionally grouped in thead (th cells) / tbody / tfoot, columns may be empty in every row unless a multi-column cell with other columns spans them; 4 fixed tables with empty multi-column cells over all-empty columns and 4 with a long multi-column cell over short cells), widths 1..={}; plain decorator with borders: \
+        one level of nested tables, rows optionally grouped in thead (th cells) / tbody / tfoot, columns may be empty in every row unless a multi-column cell with other columns spans them; 4 fixed tables with empty multi-column cells over all-empty columns 4 with a long multi-column cell over short cells, 2 with 6 and 8 columns), widths 1..={}; plain decorator with borders: \
         no panic; lines within the width (C02); the non-space characters of all cells are exactly the non-border characters of the output (C03, C06); \
         side-by-side layout: equal line widths, first and last line are rules, every rule character matches the bars directly above and below it (C05); \
         allowing width overflow does not change a rendering that succeeds (C11)", ntab, maxw));
@@ -627,7 +629,10 @@ pub fn bnd_tables() {
         "<table><tr><td colspan=4>alpha beta gamma delta epsilon zeta eta theta</td></tr><tr><td>b1</td><td>b2</td><td>b3</td><td>b4</td></tr></table>",
         "<table><tr><td colspan=2>one two three four five six</td><td>zz</td></tr><tr><td>p1</td><td>q2</td><td>r3</td></tr></table>",
         "<table><tr><td>k1</td><td colspan=3>some rather long spanning text here</td></tr><tr><td>k2</td><td>m3</td><td>n4</td><td>o5</td></tr></table>",
-        "<table><tr><td>a1</td><td>b2</td><td>c3</td></tr><tr><td colspan=3>uu vv ww xx yy zz uu vv ww xx</td></tr><tr><td>d4</td><td>e5</td><td>f6</td></tr></table>"];
+        "<table><tr><td>a1</td><td>b2</td><td>c3</td></tr><tr><td colspan=3>uu vv ww xx yy zz uu vv ww xx</td></tr><tr><td>d4</td><td>e5</td><td>f6</td></tr></table>",
+        // many equal columns whose minimum widths add up to more than a narrow page (the shrink loop takes one column at a time)
+        "<table><tr><td>tokena</td><td>tokenb</td><td>tokenc</td><td>tokend</td><td>tokene</td><td>tokenf</td></tr><tr><td>a1</td><td>b2</td><td>c3</td><td>d4</td><td>e5</td><td>f6</td></tr></table>",
+        "<table><tr><td>aa bb cc</td><td>dd</td><td>ee ff gg hh</td><td>ii</td><td>jj kk</td><td>ll</td><td>mm nn oo</td><td>pp</td></tr></table>"];
     for ti in 0..ntab as usize + extras.len() {
         let mut tok = 0;
         let html = if ti < extras.len() { extras[ti].to_string() } else { gen_table(&mut r, 0, &mut tok) };
@@ -675,10 +680,10 @@ pub fn bnd_tables() {
 // C06: every cell's text lies between the bars of the columns it spans, on the lines of its row.
 pub fn c06_positions() {
     let ntab = if thorough() { 1500u32 } else { 300u32 };
-    let mut rep = Report::new("c06_positions", &format!("{} seeded tables of 1..3 rows x 1..4 columns, colspans tiling the grid, every column holding a one-column cell with text in some row, a unique token per cell         (plus optional extra words), widths 6..=40; plain decorator, side-by-side layouts only: the bar positions of all rows are the same column boundaries; the token of cell (r, c..c+span) occurs only on lines of row band r         and entirely between boundary c-1 and boundary c+span-1; tokens of a row appear left to right in source order", ntab));
+    let mut rep = Report::new("c06_positions", &format!("{} seeded tables of 1..3 rows x 1..6 columns, colspans tiling the grid, every column holding a one-column cell with text in some row, a unique token per cell         (plus optional extra words), widths 6..=40; plain decorator, side-by-side layouts only: the bar positions of all rows are the same column boundaries; the token of cell (r, c..c+span) occurs only on lines of row band r         and entirely between boundary c-1 and boundary c+span-1; tokens of a row appear left to right in source order", ntab));
     let mut r = Lcg(0x510e527fade682d1 ^ seed());
     for _ in 0..ntab {
-        let rows = 1 + r.below(3) as usize; let cols = 1 + r.below(4) as usize;
+        let rows = 1 + r.below(3) as usize; let cols = 1 + r.below(6) as usize;
         // cells: (row, start col, span, token, html)
         let mut cells: Vec<(usize, usize, usize, String)> = vec![];
         let mut html = String::from("<table>");
@@ -1142,6 +1147,9 @@ fn c03_docs() -> Vec<(&'static str, &'static str)> {
         ("<ul><li>k1</li></ul>k2<ol><li>k3</li></ol>k4<dl><dd>k5</dd></dl>k6", "k1k2k3k4k5k6"),
         ("<p>k1<br>k2<hr>k3</p>", "k1k2k3"),
         ("<div><span id=a></span><p id=b></p>k1<ul><li></li><li>k2</li></ul></div>", "k1k2"),
+        // elements whose content the parser hands over as one raw text node are body text like any other
+        ("<p>k1</p><noscript>k2</noscript><iframe>k3</iframe><noembed>k4</noembed><noframes>k5</noframes><xmp>k6</xmp><p>k7</p>", "k1k2k3k4k5k6k7"),
+        ("<table><tr><td>k1<noscript>k2</noscript></td><td><iframe>k3</iframe></td></tr></table>", "k1k2k3"),
     ]
 }
 pub fn c03_elements() {
@@ -1437,7 +1445,7 @@ pub fn bnd_c12() {
     let nblk = if thorough() { 1500u32 } else { 300u32 };
     let mut rep = Report::new("bnd_c12", &format!("{} seeded <pre> blocks of 1..6 source lines (words, runs of 1..5 spaces, tabs, leading and trailing spaces, empty interior lines, wide characters; line breaks \
         written as newline or <br>; sometimes the first word after leading white space inside a <span>; optionally inside a list item or quote), widths 1..=40: when every expanded source line fits the available width the block is reproduced line for line \
-        (tabs to 8-column stops, interior blank lines kept, trailing spaces removed); otherwise every output line is within the width and the non-space characters are preserved in order", nblk));
+        (tabs to 8-column stops, interior blank lines kept, trailing spaces removed); otherwise every output line is within the width and the non-space characters are preserved in order; rich output: no continuation tag when everything fits; 27 single-line blocks whose first word is cut at the right edge (widths 6..=14, plain / in a list item / in a quote): first output line tagged preformatted, second continuation", nblk));
     let mut r = Lcg(0xbb67ae8584caa73b ^ seed());
     for _ in 0..nblk {
         let nl = 1 + r.below(6) as usize;
@@ -1490,6 +1498,48 @@ pub fn bnd_c12() {
                 let got: Vec<String> = body_lines.iter().map(|l| l.trim_end().to_string()).collect();
                 if got != want { rep.found(&input, &format!("lines {:?}, expected the source lines {:?}", got, want)); }
             }
+            // rich output: the first piece of every source line is tagged preformatted, the overflow pieces preformatted-continuation
+            {
+                use html2text::render::RichAnnotation;
+                let h = html.clone();
+                if let Ok(Ok(lines)) = panic::catch_unwind(move || config::rich().lines_from_read(h.as_bytes(), w)) {
+                    // per output line: the set of continuation flags on its text pieces (pieces inside the block only: they carry a Preformat annotation)
+                    let flags: Vec<Vec<bool>> = lines.iter().map(|l| { let mut f: Vec<bool> = l.tagged_strings().filter(|ts| !ts.s.trim().is_empty()).flat_map(|ts| ts.tag.iter().filter_map(|a| if let RichAnnotation::Preformat(c) = a { Some(*c) } else { None }).collect::<Vec<bool>>()).collect(); f.dedup(); f }).filter(|f| !f.is_empty()).collect();
+                    if w >= indent + maxlen {
+                        if flags.iter().any(|f| f.contains(&true)) { rep.found(&input, &format!("every source line fits, but a piece is tagged preformatted-continuation: flags per line {:?}", flags)); }
+                    }
+                }
+            }
+        }
+    }
+    // one source line whose first word is cut at the right edge and whose other words fit on the second line: the first output line is tagged
+    // preformatted, the second preformatted-continuation (breaks at white space and words moved to the next line as a whole are kept out:
+    // recorded finding D24)
+    {
+        use html2text::render::RichAnnotation;
+        for w in 6..=14usize { for (open, close, ind) in [("<pre>", "</pre>", 0usize), ("<ul><li><pre>", "</pre></li></ul>", 2), ("<blockquote><pre>", "</pre></blockquote>", 2)] {
+            let doc = format!("{}{} c d{}", open, "a".repeat(w - ind + 2), close);
+            let input = format!("width={} html={}", w, doc);
+            rep.case(&input);
+            let h = doc.clone();
+            let lines = match panic::catch_unwind(move || config::rich().lines_from_read(h.as_bytes(), w)) { Ok(Ok(l)) => l, Ok(Err(_)) => continue, Err(_) => { rep.found(&input, "panic"); continue; } };
+            let flags: Vec<Vec<bool>> = lines.iter().map(|l| { let mut f: Vec<bool> = l.tagged_strings().filter(|ts| !ts.s.trim().is_empty()).flat_map(|ts| ts.tag.iter().filter_map(|a| if let RichAnnotation::Preformat(c) = a { Some(*c) } else { None }).collect::<Vec<bool>>()).collect(); f.dedup(); f }).filter(|f| !f.is_empty()).collect();
+            if flags.len() < 2 || flags[0] != vec![false] || flags[1..].iter().any(|f| *f != vec![true]) { rep.found(&input, &format!("expected the first line tagged preformatted and the later ones continuation, flags per line {:?}", flags)); }
+        }}
+    }
+    rep.finish();
+}
+
+// Finding D24 (C12, C09): the smallest documents that show it.
+pub fn c12_contflag() {
+    use html2text::render::RichAnnotation;
+    let mut rep = Report::new("c12_contflag", "2 single-line <pre> blocks at one width each: every piece on the second output line is tagged preformatted-continuation");
+    for (doc, w) in [("<pre>aaaabbb c d</pre>", 7usize), ("<pre>ab cdefghijk l</pre>", 6)] {
+        let input = format!("width={} html={}", w, doc);
+        rep.case(&input);
+        if let Ok(lines) = config::rich().lines_from_read(doc.as_bytes(), w) {
+            let flags: Vec<Vec<bool>> = lines.iter().map(|l| { let mut f: Vec<bool> = l.tagged_strings().filter(|ts| !ts.s.trim().is_empty()).flat_map(|ts| ts.tag.iter().filter_map(|a| if let RichAnnotation::Preformat(c) = a { Some(*c) } else { None }).collect::<Vec<bool>>()).collect(); f.dedup(); f }).filter(|f| !f.is_empty()).collect();
+            if flags.len() < 2 || flags[0] != vec![false] || flags[1..].iter().any(|f| *f != vec![true]) { rep.found(&input, &format!("continuation flags per output line {:?}, expected [false] then [true] on every later line", flags)); }
         }
     }
     rep.finish();
